@@ -212,6 +212,7 @@ func ruleWaiterRemoved(c *Ctx, r2 string) {
 	if ab := cl + "abandonCall"; c.P.Func(ab) != nil {
 		c.Reach(r2, ab, "abandonCall releases the waiter on every path", ReachSpec{Stop: waiterForgotten, Target: "EXIT", Want: false})
 	}
+	c.Fields(r2, cl+"expectReply", "reply is handed over synchronously (the receive loop does not run ahead of the waiter)", "client.replyWaiter", nil, map[string]string{"msgs": `^makechan\(chan wamp\.Message,0\)$`, "gone": `^makechan\(chan struct\{\},0\)$`}, 1)
 	fr := cl + "forgetReply"
 	found := clause("an entry exists under the id", T(`^%c\.awaitingReply\[%id\],ok#1$`))
 	c.Has(r2, fr, "forgetReply deletes the entry of the id", `^call:builtin:delete\(%c\.awaitingReply, %id\)$`, 1)
